@@ -593,10 +593,7 @@ class Runner:
         self.ctx, self.harness, self.model = ctx, harness, model
 
     def run(self, exe, lines, timeout=600):
-        env = dict(os.environ)
-        if exe.endswith("_checkptr"):
-            env["C17_CHECKPTR"] = "1"
-        rc, out, err = self.ctx.run_lines([exe], lines, timeout=timeout, env=env)
+        rc, out, err = self.ctx.run_lines([exe], lines, timeout=timeout)
         return rc, out, err
 
     def run_patient(self, exe, lines):
